@@ -43,7 +43,7 @@ CLAIMS = {
          "6 C16", "Coq proof (data adapter in full, layout / non-interference of the parity and matrix adapters) + differential adapters stream with contract oracle"),
  "C17": ("proof: index 0 rejected before any effect in both arithmetic modes, allocation total on any ring, oversize parity header not resumed, storage writes confined for any arguments; index stream (0, 1, n, n+1, 2^14, 2^16, 2^32-1, the u32 seed-overflow index, random) at sampled positions in debug / release / force-full-r builds, the single-erasure back-end with indices beyond count + capacity, and corrupt-flash stream (structured and random headers, adversarial pairs, garbage tables, slots up to 1 MiB) against the model, predicted vs observed panics; one recorded known finding (seed overflow index).",
          "6 C17", "Coq proof (totality facts) + differential malformed-input and corrupt-flash streams"),
- "C18": ("proof + fault enumeration: a failed call leaves done/used unchanged except inside the back substitution (theorem, any storage instance); one transient failure at every storage-operation index of generated runs with re-delivery, compared with the fault-free run and with the fault-aware model; the finish window is a recorded known finding.",
+ "C18": ("proof + fault enumeration: a failed call leaves done/used unchanged except inside the back substitution (theorem, any storage instance), and re-delivery after such a failed call equals the fault-free call in outcome, bookkeeping and stores on the instrumented storages (c18_retry_is_fault_free, with the stage invariant kept by every call); one transient failure at every storage-operation index of generated runs with re-delivery, compared with the fault-free run and with the fault-aware model; the finish window is a recorded known finding.",
          "6 C18", "Coq proof (bookkeeping of failed calls) + exhaustive single-fault injection per run"),
 }
 
